@@ -125,3 +125,5 @@ LEVEL_TEXT = ('Machine-checked Coq theorems for every string: complement is the 
 LEVEL_NOTE = ('Trusted: Coq kernel/vm_compute, tools/gen_data.py (tables), the correspondence harness, CPython str.translate/replace. '
               'Modelled rather than verified: BioSeq.complement/reverse/rc/gc and the basket maps; Python str limited to Latin-1. '
               'All theorems closed under the global context (no axioms).')
+
+MODELLED_FUNCS = {'sugar/core/seq.py': ['BioSeq.complement', 'BioSeq.reverse', 'BioSeq.rc', 'BioSeq.gc', 'BioBasket.rc', 'BioBasket.complement', 'BioBasket.reverse']}
